@@ -128,7 +128,7 @@ function flatten(nodes, keepVirtualSlots) {
   for (const n of nodes) {
     if (n.t === 'text') out.push({ t: 'text', text: n.text })
     else if (n.t === 'el') out.push({ t: 'el', tag: n.tag, generics: n.generics, attrs: n.attrs, slot: n.slot, slotValueNames: n.slotValueNames, children: flatten(n.children, keepVirtualSlots) })
-    else if (n.t === 'slot') out.push({ t: 'slot', name: n.name, values: n.values, slot: n.slot })
+    else if (n.t === 'slot') out.push({ t: 'slot', name: n.name, values: n.values, attrs: n.attrs, slot: n.slot })
     else if (n.t === 'virtual' && n.slot !== undefined && keepVirtualSlots) out.push({ t: 'virtual', slot: n.slot, children: flatten(n.children, keepVirtualSlots) })
     else out.push(...flatten(n.children, keepVirtualSlots))
   }
